@@ -67,6 +67,7 @@ CORPUS_LINES = {
     10: [[], ['--b'], ['--b', '--b'], ['-b'], ['b']],
     11: [[], ['--o', 'v'], ['--o=v', '--m=a'], ['--m', 'a']],
     12: [[], ['-x'], ['-xx', 'a', 'b'], ['-p', 'v', 'a', 'b', 'c']],
+    13: [['--a'], ['--ab', 'v'], ['--abc', 'p'], ['--a', 'p', '--ab=v'], ['--abcd']],
 }
 ENV_LINES = {
     5: [({}, []), ({0: 'val'}, []), ({0: ''}, []), ({0: '--a=b'}, []), ({0: '-5'}, []), ({0: '-'}, []), ({0: 'v'}, ['--o', 'w']), ({1: 'a;b'}, []), ({1: 'a;'}, []), ({1: ';a'}, []), ({1: 'a;;b'}, []),
